@@ -34,6 +34,13 @@ CHECKS["C03"] = dict(
     note="'Valid' is the library's own Validate(); the space of valid claims-sets is sampled. Same trusted base as C02.",
     ref="DESIGN.md §4 C03")
 
+CHECKS["C11"] = dict(
+    engine="W-HIST",
+    technique=TECH + "differential oracle against the same profile's own Validate() on probe objects, before/after observation of failed calls, rebuild-in-permuted-order comparison; exhaustive byte-length prelude",
+    text="Seeded exploration of setter histories (1..40 calls, valid/invalid/repeated, on profile-1, profile-2 and two extension claims-sets, a software component and a component container): accept-iff against Validate() of an otherwise valid probe that received the value without the setter; exact getter value and no other claim moved on success; full observation (getters, validation class, CBOR and JSON bytes) unchanged on failure; validates once every mandatory claim was set; a fresh object rebuilt from the last successful call per claim in permuted order and with repetition encodes identically. Every byte-string setter is swept over lengths 0..80 in every batch.",
+    note="Relative oracle: a validation boundary moved consistently in setter and validator is (correctly) not reported here - that is C01/C14. Trusts the probe builder (exported struct fields, container codec) and the observation function.",
+    ref="DESIGN.md §4 C11")
+
 NA = {
     "C01": "pure predicate of one claims-set: no history, fault, schedule or seam can change the verdict; deciding it needs an independent model over a value-class product space (input enumeration), which is not this technique",
     "C04": "CBOR acceptance/fidelity is a pure function of the input bytes, decided by an independent encoder over value classes; nothing for a scheduler or fault injector to own",
@@ -46,7 +53,7 @@ NA = {
     "C20": "envelope acceptance is a pure function of the input bytes, decided by enumerating envelope shapes with an independent encoder",
 }
 
-PENDING = {k: "claimed in DESIGN.md; its check is still under construction in this session and is therefore not registered yet" for k in ["C05","C06","C07","C11","C16","C17","C18"]}
+PENDING = {k: "claimed in DESIGN.md; its check is still under construction in this session and is therefore not registered yet" for k in ["C05","C06","C07","C16","C17","C18"]}
 
 def main():
     checks = []
